@@ -221,7 +221,23 @@ func (c *DriverCtx) EnablePoison(mode int, seed int64) {
 	}
 	inner := c.Run
 	i, j := 0, 0
+	prelude := false
 	c.Run = func(ops []Op) error {
+		if !prelude {
+			// first of all every poison once, in one history of its own: what a refused call leaves behind FOR GOOD
+			// (a scratch object returned to the wrong pool, a cache entry) is then in place for the whole run
+			prelude = true
+			var all []Op
+			for k, p := range pool {
+				for _, op := range p.ops {
+					op.O, op.B = renameFor(op.O, k), renameFor(op.B, k)
+					all = append(all, op)
+				}
+			}
+			if err := inner(all); err != nil {
+				return err
+			}
+		}
 		// the history prefix: every other time a poison of the frame type the history works with (if it has one)
 		fam := ""
 		for _, op := range ops {
@@ -273,7 +289,7 @@ func (c *DriverCtx) EnablePoison(mode int, seed int64) {
 	}
 }
 
-// PoisonGC: in poisoned mode the collector runs only at history boundaries (and under memory
+// PoisonGC: in poisoned mode the collector runs only at every 1024th history boundary (and under memory
 // pressure). sync.Pool is emptied by two collections; the harness itself allocates a lot while
 // it dumps values, and a scratch object poisoned by a refused call must survive until the next
 // call of the history, as it would in an application that allocates little.
@@ -282,12 +298,15 @@ var poisonGC bool
 func PoisonGC() {
 	poisonGC = true
 	debug.SetGCPercent(-1)
-	debug.SetMemoryLimit(6 << 30)
+	debug.SetMemoryLimit(3 << 30)
 }
 
 // HistoryBoundary is called by the executors between two histories.
+var boundaries int
+
 func HistoryBoundary() {
-	if poisonGC {
+	boundaries++
+	if poisonGC && boundaries%1024 == 0 {
 		runtime.GC()
 	}
 }
@@ -343,3 +362,10 @@ func driveUnknownStorm(c *DriverCtx) error {
 }
 
 func init() { Drivers["unknown-storm"] = driveUnknownStorm }
+
+func renameFor(name string, k int) string {
+	if name == "" {
+		return name
+	}
+	return fmt.Sprintf("%s%d", name, k)
+}
